@@ -42,8 +42,8 @@ def pyIter (maxPayload : Nat) (s : PyDec) : PyIter :=
       if byteAt s.buf 0 ≠ SYNC0 then .cont s.pop
       else if byteAt s.buf 1 ≠ SYNC1 then .cont s.pop
       else if u16le s.buf 2 ≠ 0 then .cont s.pop
-      else if u32le s.buf 20 > maxPayload then .cont s.pop
-      else pyBody s (u32le s.buf 20)
+      else if u32le s.buf 16 > maxPayload then .cont s.pop
+      else pyBody s (u32le s.buf 16)
 
 theorem pyBody_shrinks {s : PyDec} {p : Nat} :
     (∀ s', pyBody s p = .cont s' → HDR ≤ s.buf.length → s'.buf.length < s.buf.length) ∧
